@@ -78,6 +78,21 @@ pub fn check(c: &EncCase) -> Verdict {
         }
     }
     let plan_modes: Vec<Mode> = merged.iter().map(|(m, _)| ref_mode(*m)).filter(|m| *m != Mode::Ascii).collect();
+    // predicted symbol (needs no reading of the stream: also decided for streams that are not conformant)
+    if stats.calls == 1 {
+        if let Some(cost) = stats.chosen_cost {
+            let predicted_len = stats.written + cost;
+            let caps = mask_sorted_caps(c.list);
+            if let Some(pred_cap) = caps.iter().find(|x| **x >= predicted_len) {
+                if sym_of(size).data > *pred_cap {
+                    return fail(format!(
+                        "the planner predicted {} codewords for its chosen plan (symbol capacity {}), the encoder needed a larger symbol ({:?}, capacity {}); plan {:?}, codewords {:?} ({})",
+                        predicted_len, pred_cap, size, sym_of(size).data, plan, cw, desc()
+                    ));
+                }
+            }
+        }
+    }
     let d = match ref_decode(&cw) {
         Ok(d) => d,
         Err(_) => return Verdict::Pass(Pass::new("stream-not-conformant(C02)", false).count("not_conformant", 1)),
